@@ -1,7 +1,7 @@
 SPECIFICATION Spec
 CONSTANTS Tunings = {"default"} MaxGroup = 2 PermSet = "all"
 CONSTANT KindSets <- KindSetsThorough
-CONSTANT Placements <- PlacementsQuick
+CONSTANT Placements <- PlacementsMid
 CONSTANT SubPatterns <- SubsQuick
 CONSTANT TurnVals <- TurnsThorough
 INVARIANT PosteriorIsBasePosterior
